@@ -55,11 +55,11 @@ def fault_cfg(rng):
     return {"node": node, "peers": peers, "apps": apps}
 
 
-def _fault_job(arg):
+def _fault_job(arg, cfg_fn=None, tag="fault"):
     seed, length = arg
     from .. import schedscen
     rng = random.Random(seed)
-    cfg = fault_cfg(rng)
+    cfg = (cfg_fn or fault_cfg)(rng)
     r = nt.Runner(cfg, seed=seed)
     try:
         g = nt.Gen(r, rng, max_conn=7, focus=dict(PROFILE, stop=0.25 if seed % 5 == 0 else 0))
@@ -72,12 +72,12 @@ def _fault_job(arg):
             r.do(g.next_action())
         if not getattr(g, "stopped", False):
             a = cfg["apps"][0]
-            schedscen.run_probe(r, n_req=a["max_threads"] + 2, delay=3 if a["handler"] == "slow" else 0)
+            schedscen.run_probe(r, n_req=a["max_threads"] + 2, delay={"slow": 3, "slow7": 7}.get(a["handler"], 0))
         else:
             for _ in range(6):
                 r.do({"a": "tick"})
         return {"params": nt.model_params(r.full_cfg, max_conn=14), "steps": r.steps, "exits": [(n, e) for n, e, _ in r.w.s.exits],
-                "cfg": {"fault": {"seed": seed, "length": length}}}
+                "cfg": {tag: {"seed": seed, "length": length}}}
     finally:
         r.close()
 
